@@ -372,4 +372,6 @@ func rulesC02(e *Engine, r *Report) {
 	e.shareRule(r, "C06", "R06.14", "R02.13", "the receiver answers `held validated` only for content it holds: after a restart a parked older version is not entered under the hash of the newer version whose first parts have rewritten the companion (the sender would be told the newer version had arrived and release it)")
 	// ---------------------------------------------------------------- R02.14
 	e.shareRule(r, "C08", "R08.3", "R02.14", "the poll comes after all bytes of THAT version: the tracker hands a file to the validator only when the bytes acknowledged for the version in hand reach its size - a count carried over from an older version of the name makes the new version polled (and, the receiver answering by name, released) while its last part is still in flight")
+	// ---------------------------------------------------------------- R02.15
+	e.shareRule(r, "C07", "R07.5", "R02.15", "a restart does not release what was never sent: at start-up the receiver's positive answer - which is about a name - marks a cache entry done (and deletes the file) only when the sent log has a record of that very version, i.e. every byte of it was acknowledged before the sender went down")
 }
